@@ -31,7 +31,31 @@ def _mods():
     from midgard.data.time import Time
     from midgard.data import position
 
+    import midgard.data._position as _P
+    if not PROCESS_STATE:
+        # every module- or class-level mutable container of the modules under test, as it is right after import: a value
+        # memoised in one of them by hand (not through lru_cache) is process state an earlier computation leaves behind
+        for m in (tr, rot, T, _P, nputil):
+            holders = [m] + [c for c in vars(m).values() if isinstance(c, type) and getattr(c, "__module__", None) == m.__name__]
+            for h in holders:
+                for name, val in list(vars(h).items()):
+                    if name.startswith("__"):
+                        continue
+                    if isinstance(val, (dict, list, set)) and not isinstance(val, type(vars(h))):
+                        PROCESS_STATE.append((f"{getattr(h, '__name__', h)}.{name}", val, val.copy()))
     return tr, rot, ell, nputil, T, Time, position
+
+
+PROCESS_STATE = []
+
+
+def restore_process_state():
+    for _, cont, snap in PROCESS_STATE:
+        if isinstance(cont, list):
+            cont[:] = snap
+        else:
+            cont.clear()
+            cont.update(snap)
 
 
 def palette_xyz(v: int, shape):
@@ -361,6 +385,7 @@ class ObjWorld:
         if self.flush:
             for c in self.caches:
                 c.cache_clear()
+            restore_process_state()
             for o in self.objs:
                 if hasattr(o, "clear_cache"):
                     try:
@@ -376,6 +401,9 @@ class ObjWorld:
         return (type(x).__name__, getattr(x, "system", getattr(x, "fmt", None)), list(a.shape), json.dumps(val))
 
 
+TIME_FMTS = ["mjd", "jd", "decimalyear", "jyear", "yyyydddsssss", "isot", "gps_seconds?", "datetime", "doy", "sec_of_day", "year"]
+
+
 def obj_ops_alphabet():
     return [
         ("conv", 0, "llh"), ("conv", 1, "llh"), ("conv", 2, "llh"), ("conv", 0, "trs"), ("conv", 0, "enu?"),
@@ -388,6 +416,7 @@ def obj_ops_alphabet():
         # reading a format / derived array of a time and writing into what was returned
         ("twrite", 6, "mjd"), ("twrite", 6, "jd_frac"), ("twrite", 6, "year"), ("twrite", 7, "mjd"), ("tfmt", 6, "mjd"),
         ("tfmt", 6, "jd_frac"), ("tfmt", 6, "year"), ("tfmt", 7, "mjd"), ("tfmt", 6, "gps_ws?"),
+        ("tconvkeep", 6, "tai"), ("tconvkeep", "T", "utc"), ("tfmt", "T", "decimalyear"), ("tfmt", 6, "decimalyear"),
         # position deltas: conversions depend on the reference position
         ("conv", 9, "enu"), ("conv", 9, "trs"), ("setitem", 10, 4), ("setref", 9, 5), ("conv", 11, "enu"), ("setitem", 11, 1),
     ]
@@ -481,7 +510,7 @@ def run_obj_history(w: ObjWorld, ops, rng_state=None):
                         obs.append(("not-an-array",))
                 except (ValueError, TypeError):
                     obs.append(("refused",))
-            elif kind in ("tindex", "tmax", "tview", "tconv", "tfmt", "tslice"):
+            elif kind in ("tindex", "tmax", "tview", "tconv", "tconvkeep", "tfmt", "tslice"):
                 if tgt == "T":
                     tgt = tlast
                     o = w.objs[tgt]
@@ -510,6 +539,11 @@ def run_obj_history(w: ObjWorld, ops, rng_state=None):
                         twin = type(o)(np.asarray(o).copy() if np.ndim(o) else np.asarray(o).item(), fmt=o.fmt)
                         rt = getattr(twin, arg)
                         obs.append(("twin",) + w.observe(rt) + (np.shape(rt.jd1), np.asarray(rt.jd1, dtype=float).tolist()))
+                elif kind == "tconvkeep":
+                    r = getattr(o, arg)
+                    w.objs.append(r)
+                    tlast = len(w.objs) - 1
+                    obs.append(w.observe(r) + (np.shape(r.jd1),))
                 elif kind == "tfmt":
                     r = getattr(o, arg.rstrip("?"))
                     obs.append(("val", json.dumps(np.asarray(r).tolist()), list(np.shape(r))))
@@ -542,12 +576,14 @@ def gen_obj_history(rng, length):
     ops, objs = [], []  # objs: dict(n=rows, other=index or None)
     for _ in range(length):
         k = rng.random()
-        nonempty = [i for i, o in enumerate(objs) if o["n"] > 0]
+        # a single row taken with an integer index is a (3,) position: indexing it addresses coordinates, not rows
+        nonempty = [i for i, o in enumerate(objs) if o["n"] > 0 and not o.get("single")]
+        anyrow = [i for i, o in enumerate(objs) if o["n"] > 0]
         if not objs or k < 0.12:
             n = rng.randint(1, 5)
             ops.append("create:" + ",".join(str(rng.randrange(12)) for _ in range(n)))
             objs.append({"n": n, "other": None})
-        elif k < 0.30 and nonempty:
+        elif k < 0.27 and nonempty:
             p = rng.choice(nonempty)
             a = rng.randrange(objs[p]["n"])
             b = rng.randint(a + 1, objs[p]["n"])
@@ -558,6 +594,14 @@ def gen_obj_history(rng, length):
                 objs.append({"n": len(rows), "other": len(objs) - 1})
             else:
                 objs.append({"n": len(rows), "other": None})
+        elif k < 0.33 and nonempty:
+            p = rng.choice(nonempty)
+            ops.append(f"viewi:{p}:{rng.randrange(objs[p]['n'])}:{rng.randrange(4)}")
+            if objs[p]["other"] is not None:
+                objs.append({"n": 1, "other": None, "single": True})
+                objs.append({"n": 1, "other": len(objs) - 1, "single": True})
+            else:
+                objs.append({"n": 1, "other": None, "single": True})
         elif k < 0.38 and nonempty:
             p = rng.choice(nonempty)
             rows = [rng.randrange(objs[p]["n"]) for _ in range(rng.randint(1, 4))]
@@ -568,7 +612,8 @@ def gen_obj_history(rng, length):
             # attachment chains (the other of an other) are outside the model: `p[a:b]` slices them recursively in the
             # real code (and recurses forever on a cycle), the model's view of the other carries no other of its own
             is_other = {o["other"] for o in objs if o["other"] is not None}
-            cands = [i for i, o in enumerate(objs) if o["n"] == objs[p]["n"] and i != p and o["other"] is None and p not in is_other]
+            cands = [i for i, o in enumerate(objs) if o["n"] == objs[p]["n"] and bool(o.get("single")) == bool(objs[p].get("single"))
+                     and i != p and o["other"] is None and p not in is_other]
             if cands and rng.random() < 0.85:
                 q = rng.choice(cands)
                 ops.append(f"setother:{p}:{q}")
@@ -576,8 +621,8 @@ def gen_obj_history(rng, length):
             else:
                 ops.append(f"setother:{p}:-")
                 objs[p]["other"] = None
-        elif k < 0.72 and nonempty:
-            p = rng.choice(nonempty)
+        elif k < 0.72 and anyrow:
+            p = rng.choice(anyrow)
             ops.append(f"setitem:{p}:{rng.randrange(objs[p]['n'])}:{rng.randrange(12)}")
         elif k < 0.86:
             ops.append(f"readconv:{rng.randrange(len(objs))}")
@@ -607,6 +652,15 @@ def run_obj_machine(ctx, mods, ops, label):
                     objs.append(r.other)
                 objs.append(r)
                 outs.append(("D",))
+            elif t[0] == "viewi":
+                # one row taken with an integer index: a Python int, a NumPy integer, or a 0-d integer array element
+                p, k, variant = int(t[1]), int(t[2]), int(t[3])
+                idx = [k, np.int64(k), np.arange(k + 1)[k], np.intp(k)][variant]
+                r = objs[p][idx]
+                if getattr(objs[p], "other", None) is not None:
+                    objs.append(r.other)
+                objs.append(r)
+                outs.append(("D",))
             elif t[0] == "take":
                 p = int(t[1])
                 rows = [int(x) for x in t[2].split(",")]
@@ -618,19 +672,26 @@ def run_obj_machine(ctx, mods, ops, label):
                 objs[int(t[1])].other = None if t[2] == "-" else objs[int(t[2])]
                 outs.append(("D",))
             elif t[0] == "setitem":
-                objs[int(t[1])][int(t[2])] = PAL[int(t[3])]
+                o = objs[int(t[1])]
+                if o.ndim == 1:
+                    if int(t[2]) != 0:
+                        raise IndexError
+                    o[:] = PAL[int(t[3])]
+                else:
+                    o[int(t[2])] = PAL[int(t[3])]
                 outs.append(("D",))
             elif t[0] == "readconv":
-                outs.append(("C", np.asarray(objs[int(t[1])].llh, dtype=float).copy()))
+                outs.append(("C", np.atleast_2d(np.asarray(objs[int(t[1])].llh, dtype=float)).copy()))
             elif t[0] == "readder":
                 o = objs[int(t[1])]
                 if getattr(o, "other", None) is None:
                     outs.append(("B",))
                 else:
-                    outs.append(("R", np.asarray(o.direction, dtype=float).copy()))
+                    outs.append(("R", np.atleast_2d(np.asarray(o.direction, dtype=float)).copy()))
         except Exception as e:
             outs.append(("ERR", type(e).__name__))
-    model = ctx.driver.ask1("c08 obj src " + " ".join(ops)).split("|")
+    mops = [":".join(["view"] + o.split(":")[1:3]) if o.startswith("viewi:") else o for o in ops]
+    model = ctx.driver.ask1("c08 obj src " + " ".join(mops)).split("|")
     ctx.case(["C", label, ops], nontrivial=sum(o.startswith("read") for o in ops) > 1)
     ctx.count("C:object-machine")
     llh_of = lambda ids: tr._trs2llh.__wrapped__(nputil.HashArray(PAL[ids]), ell.GRS80)
@@ -728,6 +789,12 @@ def run(ctx: Ctx):
             seqs.append((r, m, r))
         if isinstance(r[1], int) and r[1] in (0, 3, 9):
             seqs.append((r, ("slice", r[1], (0, 2)), ("setitem", "L", 3), r))
+    # the same format read from times of different scales holding the same year, in both orders (a value memoised per
+    # process under a key that forgets the scale or the format shows here)
+    for fmt in TIME_FMTS:
+        for sc in ("tai", "gps", "tt", "tcg"):
+            seqs.append((("tfmt", 6, fmt), ("tconvkeep", 6, sc), ("tfmt", "T", fmt), ("tfmt", 6, fmt)))
+            seqs.append((("tconvkeep", 6, sc), ("tfmt", "T", fmt), ("tfmt", 6, fmt), ("tfmt", "T", fmt)))
     for _ in range(ctx.budget(150, 4000)):
         seqs.append(tuple(rng.choice(alphabet) for _ in range(rng.randint(3, 12))))
     for seq in seqs:
@@ -766,6 +833,36 @@ def run(ctx: Ctx):
     ]
     for h in fixed:
         run_obj_machine(ctx, mods, h, "fixed")
+    # every history of length LC over a small alphabet after the prelude "a with other b": bookkeeping that goes wrong only
+    # on the second invalidation, or only for one way of taking a row, needs a specific order of these
+    prelude = ["create:1,2,3", "create:5,6,7", "setother:0:1"]
+    small = ["readconv:0", "readder:0", "setitem:1:0:V", "setitem:0:1:V", "viewi:0:1:1"]
+    large = small + ["readconv:1", "setother:0:-", "setother:0:1", "view:0:0,1", "readder:L", "readconv:L", "setitem:L:0:V", "setitem:M:0:V", "viewi:1:2:2"]
+    fams = [(small, 5), (large, 3)] if not ctx.thorough else [(small, 6), (large, 4)]
+    n_exc = 0
+    for alpha, LC in fams:
+        for seq in itertools.product(alpha, repeat=LC):
+            h, nobj, v = list(prelude), 2, 8
+            ok = True
+            for o in seq:
+                if ":L" in o or ":M" in o:
+                    if nobj < 3:
+                        ok = False
+                        break
+                    # L: the last object made (a row view of a); M: the one before it (the view of b that came with it)
+                    o = o.replace(":L", f":{nobj - 1}").replace(":M", f":{nobj - 2}")
+                if ":V" in o:
+                    v = 8 + (v - 7) % 4
+                    o = o.replace(":V", f":{v}")
+                h.append(o)
+                if o.startswith("view"):
+                    # a is object 0; whether it has an other at this point decides how many objects the view adds
+                    has_other = [x for x in h if x.startswith("setother:0:")][-1] != "setother:0:-"
+                    nobj += 2 if (o.split(":")[1] == "0" and has_other) else 1
+            if ok:
+                run_obj_machine(ctx, mods, h, "exhaustive")
+                n_exc += 1
+    ctx.extra["exhaustive_object_histories"] = n_exc
     for _ in range(ctx.budget(250, 8000)):
         run_obj_machine(ctx, mods, gen_obj_history(rng, rng.randint(4, 30)), "random")
     ctx.traces = ctx.evaluations
